@@ -392,6 +392,27 @@ func (c *fnCtx) lin0(v ssa.Value) Lin {
 				return c.seqCap(x.Call.Args[0])
 			}
 		}
+		// a helper with a single integer result that returns the same constant on every path
+		// (a header writer returning its size)
+		if ce := x.Call.StaticCallee(); ce != nil && ce.Blocks != nil && ce.Signature.Results().Len() == 1 && isInteger(v.Type()) {
+			var k0 int64
+			n, same := 0, true
+			for _, b := range ce.Blocks {
+				ret, isRet := b.Instrs[len(b.Instrs)-1].(*ssa.Return)
+				if !isRet || len(ret.Results) != 1 {
+					continue
+				}
+				k, isK := constInt(ret.Results[0])
+				if !isK || (n > 0 && k != k0) {
+					same = false
+				}
+				k0 = k
+				n++
+			}
+			if n > 0 && same {
+				return Const(k0)
+			}
+		}
 	}
 	if isInteger(v.Type()) {
 		return Var(c.atom('v', v))
@@ -831,6 +852,64 @@ func (c *fnCtx) defFacts(a Atom) []Ineq {
 			case token.SUB:
 				// unsigned subtraction kept opaque; nothing to add
 			}
+		case *ssa.Phi:
+			// a merge of constants (edges carrying the phi itself around a loop aside): bounded
+			// above by the largest, and correlated with the other constant merges of the same
+			// block (the same edge selects all of them): p - q lies between the smallest and the
+			// largest difference over the edges
+			if ks, self, ok := constEdges(x); ok {
+				first := true
+				var hi int64
+				for i, k := range ks {
+					if self[i] {
+						continue
+					}
+					if first || k > hi {
+						hi = k
+					}
+					first = false
+				}
+				ge(Const(hi).Sub(av), "merge of constants")
+				for _, in := range x.Block().Instrs {
+					q, isPhi := in.(*ssa.Phi)
+					if !isPhi {
+						break
+					}
+					if q == x || !isInteger(q.Type()) {
+						continue
+					}
+					qs, qself, ok := constEdges(q)
+					if !ok {
+						continue
+					}
+					aligned := true
+					var lo, hi int64
+					first := true
+					for i := range ks {
+						if self[i] != qself[i] {
+							aligned = false
+							break
+						}
+						if self[i] {
+							continue
+						}
+						d := ks[i] - qs[i]
+						if first || d < lo {
+							lo = d
+						}
+						if first || d > hi {
+							hi = d
+						}
+						first = false
+					}
+					if !aligned || first {
+						continue
+					}
+					qv := Var(Atom{Kind: 'v', Root: q})
+					ge(av.Sub(qv).Sub(Const(lo)), "merges of constants chosen by the same edge")
+					ge(qv.Sub(av).Add(Const(hi)), "merges of constants chosen by the same edge")
+				}
+			}
 		case *ssa.Convert:
 			// truncating conversion: only the type range is known
 		case *ssa.Extract:
@@ -857,6 +936,25 @@ func (c *fnCtx) defFacts(a Atom) []Ineq {
 		}
 	}
 	return out
+}
+
+// constEdges: the operands of a phi when each is an integer constant or the phi itself (a value
+// carried unchanged around a loop); self[i] marks the latter.
+func constEdges(ph *ssa.Phi) (ks []int64, self []bool, ok bool) {
+	n := 0
+	for _, e := range ph.Edges {
+		if e == ssa.Value(ph) {
+			ks, self = append(ks, 0), append(self, true)
+			continue
+		}
+		k, isK := constInt(e)
+		if !isK {
+			return nil, nil, false
+		}
+		ks, self = append(ks, k), append(self, false)
+		n++
+	}
+	return ks, self, n > 0
 }
 
 // fieldType finds the static type of root.path.
